@@ -31,16 +31,17 @@ def strategy_(draw):
         m["intg"] = "rk"
     A = [[draw(st.sampled_from([-1.0, -0.5, 0.0, 0.5])) for _ in range(n)] for _ in range(n)]
     B = [[draw(st.sampled_from([1.0, 0.5, -1.0])) for _ in range(mu)] for _ in range(n)]
-    args = list(draw(st.permutations(sorted(set(draw(st.lists(st.sampled_from(["pg", "pr", "pw", "xguess", "uguess"]), min_size=1, max_size=5)))))))   # every order of the chosen arguments
+    args = list(draw(st.permutations(sorted(set(draw(st.lists(st.sampled_from(["pg", "pr", "pw", "pq", "xguess", "uguess"]), min_size=1, max_size=6)))))))   # every order of the chosen arguments
     if mcls == "SS":
         args = [a for a in args if a != "xguess"] or ["pg"]
     N = m["N"]
-    vals = {"pg": [draw(gen.small()) for _ in range(n)], "pr": [draw(gen.small()) for _ in range(N)], "pw": draw(gen.small()),
+    nq = draw(st.sampled_from([2, N, N])) if N > 1 else 2        # a vector-valued per-interval parameter, often with as many entries as intervals
+    vals = {"pq": [[draw(gen.small()) for _ in range(N)] for _ in range(nq)], "pg": [draw(gen.small()) for _ in range(n)], "pr": [draw(gen.small()) for _ in range(N)], "pw": draw(gen.small()),
             "xguess": [[draw(gen.small()) for _ in range(N + 1)] for _ in range(n)], "uguess": [[draw(gen.small()) for _ in range(N)] for _ in range(mu)]}
-    current = {"pg": [draw(gen.small()) for _ in range(n)], "pr": [draw(gen.small()) for _ in range(N)], "pw": draw(gen.small())}
+    current = {"pq": [[draw(gen.small()) for _ in range(N)] for _ in range(nq)], "pg": [draw(gen.small()) for _ in range(n)], "pr": [draw(gen.small()) for _ in range(N)], "pw": draw(gen.small())}
     # "current values" may also have been assigned after the problem was transcribed (e.g. after an earlier solve or query)
     late = {k: v for k, v in {"pg": [draw(gen.small()) for _ in range(n)], "pr": [draw(gen.small()) for _ in range(N)], "pw": draw(gen.small())}.items() if draw(st.integers(0, 2)) == 0}
-    return {"n": n, "mu": mu, "method": m, "A": A, "B": B, "T": draw(st.sampled_from([1.0, 2.0, 0.5])), "t0": draw(st.sampled_from([0.0, 1.0])), "umax": draw(st.sampled_from([0.5, 5.0])),
+    return {"n": n, "mu": mu, "nq": nq, "method": m, "A": A, "B": B, "T": draw(st.sampled_from([1.0, 2.0, 0.5])), "t0": draw(st.sampled_from([0.0, 1.0])), "umax": draw(st.sampled_from([0.5, 5.0])),
             "args": args, "vals": vals, "current": current, "late": late, "labels": draw(st.sampled_from([None, None, "named", "many"])), "rng": draw(st.integers(0, 2**31 - 1))}
 
 
@@ -49,11 +50,11 @@ def strategy(tier):
 
 
 def nontrivial(case):
-    return bool({"xguess", "uguess"} & set(case["args"])) or bool({"pg", "pr", "pw"} - set(case["args"]))
+    return bool({"xguess", "uguess"} & set(case["args"])) or bool({"pg", "pr", "pw", "pq"} - set(case["args"]))
 
 
 def classify(case):
-    labs = ["method:" + case["method"]["cls"], "grid:" + case["method"]["grid"]["cls"], "labels:%s" % case.get("labels")] + ["arg:" + a for a in case["args"]] + ["unlisted:" + a for a in sorted({"pg", "pr", "pw"} - set(case["args"]))]
+    labs = ["method:" + case["method"]["cls"], "grid:" + case["method"]["grid"]["cls"], "labels:%s" % case.get("labels")] + ["arg:" + a for a in case["args"]] + ["unlisted:" + a for a in sorted({"pg", "pr", "pw", "pq"} - set(case["args"]))]
     if "xguess" in case["args"] and case["args"][-1] != "xguess":
         labs.append("state guess followed by another argument")
     if set(case.get("late", {})) - set(case["args"]):
@@ -74,14 +75,17 @@ def make(case, solver_opts):
     pg = ocp.parameter(n)
     pr = ocp.parameter(grid="control")
     pw = ocp.parameter()
+    pq = ocp.parameter(case.get("nq", 2), grid="control")
     ocp.set_der(x, ca.DM(case["A"]) @ x + ca.DM(case["B"]) @ u)
     ref_ = ca.vertcat(pr, ca.DM.zeros(n - 1)) if n > 1 else pr
-    ocp.add_objective(ocp.integral(ca.sumsqr(x - ref_) + (1 + pw ** 2) * ca.sumsqr(u)) + ocp.at_tf(ca.sumsqr(x)))
+    wq = ca.DM([0.1 * (j + 1) for j in range(case.get("nq", 2))])
+    ocp.add_objective(ocp.integral(ca.sumsqr(x - ref_) + (1 + pw ** 2) * ca.sumsqr(u)) + ocp.at_tf(ca.sumsqr(x)) + ocp.sum((u[0] - ca.dot(wq, pq)) ** 2))
     ocp.subject_to(ocp.at_t0(x) == pg)
     ocp.subject_to(-case["umax"] <= (u <= case["umax"]))
     ocp.set_value(pg, ca.DM(case["current"]["pg"]))
     ocp.set_value(pr, ca.DM(case["current"]["pr"]).T)
     ocp.set_value(pw, case["current"]["pw"])
+    ocp.set_value(pq, ca.DM(np.array(case["current"].get("pq", [[0.0] * case["method"]["N"]] * case.get("nq", 2)))))
     ocp.method(make_method(case["method"]))
     opts = dict(IPOPT_QUIET)
     opts.update(solver_opts)
@@ -90,7 +94,7 @@ def make(case, solver_opts):
         ocp.sample(x, grid="control")      # transcribes
         for k, v in case["late"].items():
             ocp.set_value({"pg": pg, "pr": pr, "pw": pw}[k], ca.DM(v).T if k == "pr" else (ca.DM(v) if k == "pg" else v))
-    return ocp, {"x": x, "u": u, "pg": pg, "pr": pr, "pw": pw}
+    return ocp, {"x": x, "u": u, "pg": pg, "pr": pr, "pw": pw, "pq": pq}
 
 
 def results_of(ocp, S):
@@ -104,6 +108,8 @@ def arg_exprs(ocp, S, args):
             out.append(ocp.value(S[a]))
         elif a == "pr":
             out.append(ocp.sample(S["pr"], grid="control-")[1])
+        elif a == "pq":
+            out.append(ocp.sample(S["pq"], grid="control-")[1])
         elif a == "xguess":
             out.append(ocp.sample(S["x"], grid="control")[1])
         elif a == "uguess":
@@ -121,6 +127,8 @@ def arg_values(case):
             out.append(ca.DM(v["pw"]))
         elif a == "pr":
             out.append(ca.DM(v["pr"]).T)
+        elif a == "pq":
+            out.append(ca.DM(np.array(v["pq"])))
         elif a == "xguess":
             out.append(ca.DM(np.array(v["xguess"])))
         elif a == "uguess":
@@ -138,6 +146,8 @@ def imperative(case, solver_opts, start_only=False):
             ocp.set_value(S["pw"], v["pw"])
         elif a == "pr":
             ocp.set_value(S["pr"], ca.DM(v["pr"]).T)
+        elif a == "pq":
+            ocp.set_value(S["pq"], ca.DM(np.array(v["pq"])))
         elif a == "xguess":
             ocp.set_initial(S["x"], np.array(v["xguess"]))
         elif a == "uguess":
